@@ -33,6 +33,10 @@ import (
 // Callback families (identical in Lean, Spec/C13.lean): predicates p0..p5, keys f0..f5, comparators
 // c0 a<b, c1 a>b, c2 a==b, c3 a<=b, c4 true, c5 false.
 
+// namedInt: a named type whose underlying type is int (type switches and type assertions do not see through it,
+// reflect.Kind does)
+type namedInt int
+
 func c13Pred(name string) func(int) bool { return ft1(c13Pred0(name)) }
 
 func c13Pred0(name string) func(int) bool {
@@ -330,6 +334,26 @@ func (r *c13Runner) Do(op []string) string {
 			return "err"
 		}
 		return "ok " + ints(res)
+	case "range@named", "rangeright@named": // a NAMED int type (inside the Number type set)
+		var args []namedInt
+		for _, x := range parseInts(op[1]) {
+			args = append(args, namedInt(x))
+		}
+		var res []namedInt
+		var err error
+		if op[0] == "range@named" {
+			res, err = gogu.Range(args...)
+		} else {
+			res, err = gogu.RangeRight(args...)
+		}
+		if err != nil {
+			return "err"
+		}
+		out := make([]int, len(res))
+		for i, x := range res {
+			out[i] = int(x)
+		}
+		return "ok " + ints(out)
 	case "rangeu", "rangerightu": // the uint64 instantiation (values above 2^63 included)
 		var args []uint64
 		for _, t := range parseList(op[1]) {
@@ -601,7 +625,7 @@ func genC13(g *Gen) {
 			var ops []string
 			for end := -10; end <= 10; end++ {
 				a := ints([]int{st, step, end})
-				ops = append(ops, "range "+a, "rangeright "+a)
+				ops = append(ops, "range "+a, "rangeright "+a, "range@named "+a, "rangeright@named "+a)
 			}
 			g.Emit("c13", nil, ops)
 		}
